@@ -293,6 +293,12 @@ def install():
     unit.hash = sym_hash
     cond.float = as_type_stub(sym_float)
     helpers.float = as_type_stub(sym_float)
+    # every other module of the package as well, so that a float() introduced by a change keeps symbolic values symbolic
+    import py_ballisticcalc.interface as iface
+    import py_ballisticcalc.trajectory_data._trajectory_data as td
+    import py_ballisticcalc.interface_config as icfg
+    for m in (tc, mun, dm, vec, iface, td, icfg):
+        m.float = as_type_stub(sym_float)
     _INSTALLED = True
 
 
